@@ -98,3 +98,19 @@ def post_release_bound_shortening(v) -> bool:
         exp = tuple(any(iv.mem_range(r, p) for r in rs) for p in pts)
         return iv.vector(back, pts) == exp
     return False
+
+
+@predicate
+def macos10_on_arm64(v) -> bool:
+    """F11: Platform(Macos(10, x), arm64) - a combination that never shipped - gets the tag list of
+    an 11+ target (macosx_10_16..10_4_universal2, no arm64 tag).  Explained iff the platform under
+    test is exactly that combination; any other platform is reported."""
+    import re
+
+    from dep_logic.tags import Platform
+
+    plat = v["detail"].get("platform", "")
+    if not re.fullmatch(r"macos_10_\d+_arm64", plat):
+        return False
+    # the mechanism: the arm64 branch ignores the 10.x target and emits only the universal2 tail
+    return list(Platform.parse(plat).compatible_tags) == [f"macosx_10_{m}_universal2" for m in range(16, 3, -1)]
